@@ -63,14 +63,14 @@ func init() {
 
 func init() {
 	reg(&propCfg{ID: "C08", QuickRuns: 12000, QuickSecs: 40, ThoroughRuns: 300000, ThoroughSecs: 780, Chunk: 50,
-		RuleNote:   "C08: 1..3 connections with 2..12 requests each, a drawn subset of up to 3 (thorough 6) parked inside the implementation (in the callback or answering later from another goroutine); at every quiescence (before any release, after each release in scheduler-chosen order) every other written request must have its reply, and Tstat requests issued while the subset is parked must be answered; stratum 'shared-tag-groups' adds groups of 2..8 requests issued under one tag without waiting, checked for one-at-a-time execution and reply order. Every 10th run is the stratum 'auth-fid-blocked': server with AuthOps, one Tread or Twrite on an authentication fid parked inside AuthRead / AuthWrite; a Twrite and a Tread on the same afid, a Tattach naming it, Tstat / Twalk on other fids and requests on a second connection must all be answered meanwhile. Every 10th run (index 4) is the stratum 'fid-destroy-blocked': the FidDestroy callback of a Tclunk is parked; Tstat, Twalk, Tclunk, Tattach on the connection and requests on a second connection must be answered meanwhile.",
+		RuleNote:   "C08: 1..3 connections with 2..12 requests each, a drawn subset of up to 3 (thorough 6) parked inside the implementation (in the callback or answering later from another goroutine); at every quiescence (before any release, after each release in scheduler-chosen order) every other written request must have its reply, and Tstat requests issued while the subset is parked must be answered; stratum 'shared-tag-groups' adds groups of 2..8 requests issued under one tag without waiting, checked for one-at-a-time execution and reply order. Every 10th run is the stratum 'auth-fid-blocked': server with AuthOps, one Tread or Twrite on an authentication fid parked inside AuthRead / AuthWrite; a Twrite and a Tread on the same afid, a Tattach naming it, Tstat / Twalk on other fids and requests on a second connection must all be answered meanwhile. Every 10th run (index 4) is the stratum 'fid-destroy-blocked': the FidDestroy callback of a Tclunk is parked; Tstat, Twalk, Tclunk, Tattach on the connection and requests on a second connection must be answered meanwhile. Runs 2 and 12 of every 20: 'newfid-in-flight' (a Twalk to a new fid parked; a Tstat naming that new fid is sent and not judged; Tstat / Twalk on other fids and requests on a second connection must be answered) and 'flushop-blocked' (a Tstat parked, then the FlushOp.Flush call of the Tflush naming it parked as well; other tags must be answered).",
 		Real:       srvReal, Stub: srvStub,
 		ProbeNames: []string{"quiescence-with-requests-parked", "late-request-answered-while-others-parked", "shared-tag-group-of-3+", "group-member-parked-with-successors", "3+-held-simultaneously", "release-order-differs-from-arrival"}})
 }
 
 func init() {
 	reg(&propCfg{ID: "C11", QuickRuns: 12000, QuickSecs: 40, ThoroughRuns: 300000, ThoroughSecs: 780, Chunk: 50,
-		RuleNote:   "C11: a victim and a bystander connection run C03-style pipelined histories (fids attached, walked, opened, created, clunked, removed; up to 4 victim requests parked in the implementation); the victim's client end is closed, reset, or closed in the middle of a frame at a drawn step / at the first quiescence with requests parked / when idle; parked requests are released afterwards in scheduler-chosen order; then the bystander and a fresh connection are probed. A quarter of the runs cancel parked victim requests through FlushOp before the cut; cut mode 'half-close': the victim stops reading after the set-up (24-byte transport, the server's writer blocks) and then ends only its sending direction.",
+		RuleNote:   "C11: a victim and a bystander connection run C03-style pipelined histories (fids attached, walked, opened, created, clunked, removed; up to 4 victim requests parked in the implementation); the victim's client end is closed, reset, or closed in the middle of a frame at a drawn step / at the first quiescence with requests parked / when idle; parked requests are released afterwards in scheduler-chosen order; then the bystander and a fresh connection are probed. A quarter of the runs cancel parked victim requests through FlushOp before the cut; cut mode 'half-close': the victim stops reading after the set-up (24-byte transport, the server's writer blocks) and then ends only its sending direction. Every 12th run is the stratum 'tversion-then-disconnect': 1..8 requests (a drawn share parked) with a Tversion behind them, then the victim leaves; ConnClosed once, every fid shown destroyed exactly once, no goroutine left. The Ufs stratum reads the directory from offset 0 three times through one fid.",
 		Real:       srvReal, Stub: srvStub,
 		ProbeNames: []string{"cut-with-requests-parked", "3+-held-simultaneously", "release-order-differs-from-arrival"}})
 }
@@ -113,14 +113,14 @@ var ufsStub = []string{"transport: simulated net.Conn (segmentation by policy)",
 
 func init() {
 	reg(&propCfg{ID: "C14", QuickRuns: 3000, QuickSecs: 40, ThoroughRuns: 60000, ThoroughSecs: 780, Chunk: 20,
-		RuleNote:   "C14: 1..4 (thorough ..6) caller goroutines, each with 1..3 files of length 0, 1, iounit-1, iounit, iounit+1, 2*iounit+-1, 3*iounit+7 or random up to 5 iounits (seeded content), iounit 128..65512 further limited by the server's msize, both dialects; 2..8 operations per file drawn from Clnt.Read/Write, File.Read/Write/ReadAt/WriteAt/Readn/Written and a full sequential read, offsets at 0, EOF, EOF+1, beyond, iounit multiples -1, counts 0, 1, iounit-1..iounit+1, 2 and 3 iounits; every result is compared with a byte-slice model and, after every write, the model with os.ReadFile. Every 5th run injects OS errors into Ufs (10-80 per mille, at most 5): a call running while an error fired may fail, but what it reports as written must be in the file and nothing else may change. Read offsets include 2^32, 2^32+1, 2^40.",
+		RuleNote:   "C14: 1..4 (thorough ..6) caller goroutines, each with 1..3 files of length 0, 1, iounit-1, iounit, iounit+1, 2*iounit+-1, 3*iounit+7 or random up to 5 iounits (seeded content), iounit 128..65512 further limited by the server's msize, both dialects; 2..8 operations per file drawn from Clnt.Read/Write, File.Read/Write/ReadAt/WriteAt/Readn/Written and a full sequential read, offsets at 0, EOF, EOF+1, beyond, iounit multiples -1, counts 0, 1, iounit-1..iounit+1, 2 and 3 iounits; every result is compared with a byte-slice model and, after every write, the model with os.ReadFile. Every 5th run injects OS errors into Ufs (10-80 per mille, at most 5): a call running while an error fired may fail, but what it reports as written must be in the file and nothing else may change. Read offsets include 2^32, 2^32+1, 2^40. Further opens of a file use OREAD, ORDWR, OWRITE|OTRUNC or ORDWR|OTRUNC.",
 		Real:       ufsReal, Stub: ufsStub,
 		ProbeNames: []string{"read-at-or-past-eof", "read-ending-exactly-at-eof", "write-past-eof", "read-spanning-3+-messages", "readn-spanning-messages", "written-spanning-messages"}})
 }
 
 func init() {
 	reg(&propCfg{ID: "C15", QuickRuns: 8000, QuickSecs: 40, ThoroughRuns: 100000, ThoroughSecs: 780, Chunk: 25,
-		RuleNote:   "C15: directories of 0, 1, 2, 3, 7, 50 (thorough also 1000 and 3000) entries with name lengths 1..255 (so entry sizes vary), files and subdirectories, msize 256..64 KiB, both dialects. Five strata by run index: a fixed count enumerated from the largest entry size up to about three entries; random counts per read; a listing abandoned after 1..3 replies and restarted at offset 0; the client's Readdir(0) and Readdir(n); a count smaller than the first entry. Every Rread payload is split into whole records by the independent stat decoder and the concatenated listing is compared with os.ReadDir. The too-small stratum also lists up to a drawn entry k, offers less than entry k needs at that offset (Rerror expected, not an empty reply) and then reads entry k with exactly its size. The too-small stratum also opens a fresh fid whose very first read is too small (Rerror) and then lists through it.",
+		RuleNote:   "C15: directories of 0, 1, 2, 3, 7, 50 (thorough also 1000 and 3000) entries with name lengths 1..255 (so entry sizes vary), files and subdirectories, msize 256..64 KiB, both dialects. Five strata by run index: a fixed count enumerated from the largest entry size up to about three entries; random counts per read; a listing abandoned after 1..3 replies and restarted at offset 0; the client's Readdir(0) and Readdir(n); a count smaller than the first entry. Every Rread payload is split into whole records by the independent stat decoder and the concatenated listing is compared with os.ReadDir. The too-small stratum also lists up to a drawn entry k, offers less than entry k needs at that offset (Rerror expected, not an empty reply) and then reads entry k with exactly its size. The too-small stratum also opens a fresh fid whose very first read is too small (Rerror) and then lists through it. Stratum 'huge-directory' (quick: runs 7 and 1008; thorough: every 250th): 4000 entries with names of 200..255 bytes (packed listing > 1 MiB), msize 64 KiB, raw listing with the largest count or the client's Readdir(0).",
 		Real:       ufsReal, Stub: ufsStub,
 		ProbeNames: []string{"fixed-count-listing", "restart-at-zero-mid-listing", "client-readdir", "count-too-small"}})
 }
@@ -134,14 +134,14 @@ func init() {
 
 func init() {
 	reg(&propCfg{ID: "C17", QuickRuns: 3000, QuickSecs: 40, ThoroughRuns: 50000, ThoroughSecs: 780, Chunk: 20,
-		RuleNote:   "C17: a random tree (3..25 entries: files, directories, symlinks, hard links) is created twice; 8..30 (thorough ..80) mutations drawn against the current state — create of a file with each open mode +-OTRUNC followed by a write through the new fid, of a directory, symlink (also dangling) and hard link, write to an existing file, remove of files and of empty and non-empty directories, wstat rename to free and occupied names, truncate to 0..beyond size, chmod, mtime — are applied through raw 9P requests to tree A and with the os package to twin B; after every step the trees are compared recursively (names, kinds, permission bits, contents, link targets, link counts), error replies must leave A unchanged (create, remove) and carry the errno of the POSIX failure in 9P2000.u, and Tstat on the fid after create/rename must name the new object. Create over an existing name may either fail or behave like a non-exclusive open. Every 4th run (stratum os-error) lets one os / syscall call of the mutating request fail with a drawn errno (EIO, ENOSPC, EACCES, EMFILE, ENOENT, EINTR, EROFS, ENOMEM) instead of being performed: the reply must carry that errno, a failed create/remove must leave the tree unchanged, and the twin is re-synchronised afterwards. With probability 0.4 a Twstat step (rename, truncate, chmod, chown, mtime) is sent on a fid that was first opened with a drawn mode (OREAD/OWRITE/ORDWR/OEXEC). Every 4th run is the stratum 'session': 1..4 long-lived fids, each modelled as the path it designates plus (once open) an open file of the twin; 16..60 requests (Tstat, Topen with every mode, Twrite, Tread, Twstat length / mode / name, Tremove, Tcreate through a directory fid, Tclunk) go through a drawn live fid, the twin gets the POSIX operation on that path or open file, replies, read data, stat fields and the two trees are compared after every step; fids that a rename or remove would leave dangling are clunked first. Half of all Twrites are followed at once by 1..3 further requests. Step kind 12 sends one Twstat with a drawn combination of permission bits, name, length and mtime; the twin applies chmod, rename, truncate, utimes in that order.",
+		RuleNote:   "C17: a random tree (3..25 entries: files, directories, symlinks, hard links) is created twice; 8..30 (thorough ..80) mutations drawn against the current state — create of a file with each open mode +-OTRUNC followed by a write through the new fid, of a directory, symlink (also dangling) and hard link, write to an existing file, remove of files and of empty and non-empty directories, wstat rename to free and occupied names, truncate to 0..beyond size, chmod, mtime — are applied through raw 9P requests to tree A and with the os package to twin B; after every step the trees are compared recursively (names, kinds, permission bits, contents, link targets, link counts), error replies must leave A unchanged (create, remove) and carry the errno of the POSIX failure in 9P2000.u, and Tstat on the fid after create/rename must name the new object. Create over an existing name may either fail or behave like a non-exclusive open. Every 4th run (stratum os-error) lets one os / syscall call of the mutating request fail with a drawn errno (EIO, ENOSPC, EACCES, EMFILE, ENOENT, EINTR, EROFS, ENOMEM) instead of being performed: the reply must carry that errno, a failed create/remove must leave the tree unchanged, and the twin is re-synchronised afterwards. With probability 0.4 a Twstat step (rename, truncate, chmod, chown, mtime) is sent on a fid that was first opened with a drawn mode (OREAD/OWRITE/ORDWR/OEXEC). Every 4th run is the stratum 'session': 1..4 long-lived fids, each modelled as the path it designates plus (once open) an open file of the twin; 16..60 requests (Tstat, Topen with every mode, Twrite, Tread, Twstat length / mode / name, Tremove, Tcreate through a directory fid, Tclunk) go through a drawn live fid, the twin gets the POSIX operation on that path or open file, replies, read data, stat fields and the two trees are compared after every step; fids that a rename or remove would leave dangling are clunked first. Half of all Twrites are followed at once by 1..3 further requests. Step kind 12 sends one Twstat with a drawn combination of permission bits, name, length and mtime; the twin applies chmod, rename, truncate, utimes in that order. 30 % of the writes are sent as two Twrites on the fid in flight together. In all Ufs checks every os / syscall call of the instrumented Ufs is a schedule point.",
 		Real:       ufsReal, Stub: ufsStub,
 		ProbeNames: []string{"create-error", "remove-error", "rename", "truncate", "chmod", "set-mtime", "symlink-create", "hardlink-create"}})
 }
 
 func init() {
 	reg(&propCfg{ID: "C18", QuickRuns: 3000, QuickSecs: 40, ThoroughRuns: 60000, ThoroughSecs: 780, Chunk: 20,
-		RuleNote:   "C18: layout outer/{canary.txt, canarydir/inside.txt, root/...} with a further canary above; 6..20 attacking connections per run, each with an attach name, 0..4 walk elements, a create name and a rename target drawn from a grammar over '..', '.', '', '/', absolute paths, '../' chains, elements containing '/', and mixtures with real names, started at the root or at a random depth, followed by stat, open, read / directory read, write, create, rename and remove through whatever fid resulted. Canaries and everything else outside the root (mode, mtime, content, listing) must be unchanged, no qid returned may be that of an object outside the root (inode comparison), no data read may be a canary's, '..' at the root must yield the root's qid. Hostile creates use every kind (file, directory and, in 9P2000.u, symbolic link, hard link, named pipe, device, socket); after an Rcreate the fid is examined with Tstat and a walk to the canary's name. Further steps: a Twstat rename through a fid that designates the root itself (cloned, or reached by 'sub','..'), and Twalk(0->N) + Twalk(N->M by the components of the canary's absolute path) + Tstat(M) written as one segment.",
+		RuleNote:   "C18: layout outer/{canary.txt, canarydir/inside.txt, root/...} with a further canary above; 6..20 attacking connections per run, each with an attach name, 0..4 walk elements, a create name and a rename target drawn from a grammar over '..', '.', '', '/', absolute paths, '../' chains, elements containing '/', and mixtures with real names, started at the root or at a random depth, followed by stat, open, read / directory read, write, create, rename and remove through whatever fid resulted. Canaries and everything else outside the root (mode, mtime, content, listing) must be unchanged, no qid returned may be that of an object outside the root (inode comparison), no data read may be a canary's, '..' at the root must yield the root's qid. Hostile creates use every kind (file, directory and, in 9P2000.u, symbolic link, hard link, named pipe, device, socket); after an Rcreate the fid is examined with Tstat and a walk to the canary's name. Further steps: a Twstat rename through a fid that designates the root itself (cloned, or reached by 'sub','..'), and Twalk(0->N) + Twalk(N->M by the components of the canary's absolute path) + Tstat(M) written as one segment. The name grammar includes elements with a trailing or embedded '/': '../', './', 'sub/', '..//', '/..', '<real>/'.",
 		Real:       ufsReal, Stub: ufsStub,
 		ProbeNames: []string{"dotdot-walk", "attach-refused"}})
 }
@@ -164,7 +164,7 @@ func init() {
 
 func init() {
 	reg(&propCfg{ID: "C19", Race: true, QuickRuns: 2400, QuickSecs: 50, ThoroughRuns: 60000, ThoroughSecs: 900, Chunk: 30,
-		RuleNote:   "C19 runs in the race build (only go9p and the standard library are instrumented; scheduler and harness are compiled with -race=false and park/release inside RaceDisable regions, transport reads happen-after earlier writes like sockets do). Strata: 'script/pipelined' (C03 workload: 1..3 connections, up to 16 pipelined requests each on its own fid, answers from other goroutines), 'script/flushes' (C07 workload incl. Tversion at session start), 'ufs/shared-client' (2..8 goroutines sharing one client against Ufs, each on its own file, all walking from the shared root fid, reading a shared directory), 'script/connection-churn' (connections opened and dropped once their requests are answered while two others stay busy). Only race reports and crashes are judged. Added strata: 'client/shared-client' (2..8 goroutines sharing the library client against the scripted peer: Read/Write/Stat/Walk/Clunk, pipelined Tag reads, File.ReadAt, replies withheld and released in drawn order, client logging off / fcalls / packets with a goroutine reading the log), 'logger' (2..4 producers and 1..3 filterers on one Logger); the Ufs stratum uses 1..3 connections and includes '..' walks and renames. The client stratum also issues Tag-interface Walk / Stat / Open / Create / Clunk, some refused by the scripted server. One third of the server-side runs use an implementation with the optional request hooks.",
+		RuleNote:   "C19 runs in the race build (only go9p and the standard library are instrumented; scheduler and harness are compiled with -race=false and park/release inside RaceDisable regions, transport reads happen-after earlier writes like sockets do). Strata: 'script/pipelined' (C03 workload: 1..3 connections, up to 16 pipelined requests each on its own fid, answers from other goroutines), 'script/flushes' (C07 workload incl. Tversion at session start), 'ufs/shared-client' (2..8 goroutines sharing one client against Ufs, each on its own file, all walking from the shared root fid, reading a shared directory), 'script/connection-churn' (connections opened and dropped once their requests are answered while two others stay busy). Only race reports and crashes are judged. Added strata: 'client/shared-client' (2..8 goroutines sharing the library client against the scripted peer: Read/Write/Stat/Walk/Clunk, pipelined Tag reads, File.ReadAt, replies withheld and released in drawn order, client logging off / fcalls / packets with a goroutine reading the log), 'logger' (2..4 producers and 1..3 filterers on one Logger); the Ufs stratum uses 1..3 connections and includes '..' walks and renames. The client stratum also issues Tag-interface Walk / Stat / Open / Create / Clunk, some refused by the scripted server. One third of the server-side runs use an implementation with the optional request hooks. In a third of the client and Ufs runs the server answers Tversion with a smaller msize than the client proposed.",
 		Real:       append(append(append([]string{}, srvReal...), "go9p client library", "go9p Ufs on a scratch tree"), "Go race detector"),
 		Stub:       srvStub,
 		ProbeNames: []string{}})
